@@ -62,7 +62,7 @@ fn c07_extract_ranges(q: Quaternion<R>) {
     unitq(q);
     let e: Euler<Rad<R>> = q.into();
     let test = q.v.x * q.v.z + q.v.y * q.s;
-    let pi = Rad::<R>::turn_div_2().0; let hp = Rad::<R>::turn_div_4().0;
+    let pi = R(std::f64::consts::PI); let hp = (R(std::f64::consts::PI) / R(2.0));
     if test > R(0.499) {
         vcover("gimbal +");
         vassert_eq("x reported as 0", e.x.0, R(0.0));
